@@ -56,37 +56,54 @@ def one_run(res, edges, m0, tap, ctx):
     n0 = len(tap.log)
     e = sut("EECC()", gcmpy.EECC)
     # the graph is "built from edges" and the bound set through the public interface - in any order of those calls
-    es = [tuple(x) for x in edges]
+    es_list = [tuple(x) for x in edges]
+    container = ctx.get("edge_container", "list")
+    if container != "list":
+        res.count("edges_given_as_" + container)
+
+    # the edges are handed over the way a caller may: a list, a tuple, a dict view, or a fresh one-shot iterable per call
+    def wrap(lst):
+        if container == "tuple":
+            return tuple(lst)
+        if container == "generator":
+            return (x for x in lst)
+        if container == "iterator":
+            return iter(list(lst))
+        if container == "zip":
+            return zip([a for a, _ in lst], [b for _, b in lst])
+        if container == "dict-keys":
+            return dict.fromkeys(lst).keys()
+        return list(lst)
     order = ctx.get("build_order", "edges-then-bound")
     res.count("build_" + order)
     if order == "edges-then-bound":
-        sut("add_edges_from", e.add_edges_from, es)
+        sut("add_edges_from", e.add_edges_from, wrap(es_list))
         sut("set_max_clique_size", e.set_max_clique_size, m0)
     elif order == "bound-then-edges":
         sut("set_max_clique_size", e.set_max_clique_size, m0)
-        sut("add_edges_from", e.add_edges_from, es)
+        sut("add_edges_from", e.add_edges_from, wrap(es_list))
     elif order == "interleaved":
-        k = max(1, len(es) // 3)
-        for x in es[:k]:
+        k = max(1, len(es_list) // 3)
+        for x in es_list[:k]:
             sut("add_edge", e.add_edge, x)
         sut("set_max_clique_size", e.set_max_clique_size, m0)
-        sut("add_edges_from", e.add_edges_from, es[k:])
+        sut("add_edges_from", e.add_edges_from, wrap(es_list[k:]))
     elif order == "bound-twice":   # a provisional bound first, the real one last
         sut("set_max_clique_size", e.set_max_clique_size, 2 if m0 != 2 else 5)
-        sut("add_edges_from", e.add_edges_from, es)
+        sut("add_edges_from", e.add_edges_from, wrap(es_list))
         sut("set_max_clique_size", e.set_max_clique_size, m0)
     elif order == "peek-then-rebound":
         # history on one object: the candidate list is inspected under a provisional (larger) bound, then the bound is changed
-        sut("add_edges_from", e.add_edges_from, es)
+        sut("add_edges_from", e.add_edges_from, wrap(es_list))
         sut("set_max_clique_size", e.set_max_clique_size, m0 + 1)
         sut("limited_maximal_cliques (read-only peek)", e.limited_maximal_cliques)
         sut("set_max_clique_size", e.set_max_clique_size, m0)
     else:   # "reuse": the object has already produced a cover of the same graph under another bound; the edges are put back
-        sut("add_edges_from", e.add_edges_from, es)
+        sut("add_edges_from", e.add_edges_from, wrap(es_list))
         sut("set_max_clique_size", e.set_max_clique_size, m0 + 2 if m0 < 4 else 2)
         with installed(RandomTap(seed=5, keep_log=False), "eecc"):
             sut("get_EECC (first use of the object)", e.get_EECC)
-        sut("add_edges_from (again)", e.add_edges_from, es)
+        sut("add_edges_from (again)", e.add_edges_from, wrap(es_list))
         sut("set_max_clique_size", e.set_max_clique_size, m0)
     with installed(tap, "eecc"):
         cover = sut("get_EECC", e.get_EECC)
@@ -176,7 +193,8 @@ def run_case(case):
         for kind, val in scheds:
             tap = RandomTap(seed=val if kind == "seed" else 0, preset={"choice": val} if kind == "preset" else None, on_event=guard)
             r = one_run(res, edges, m0, tap, dict(base, schedule=[kind, val],
-                                                   build_order=rng.choice(["edges-then-bound", "edges-then-bound", "bound-then-edges", "interleaved", "bound-twice", "peek-then-rebound", "reuse"])))
+                                                   build_order=rng.choice(["edges-then-bound", "edges-then-bound", "bound-then-edges", "interleaved", "bound-twice", "peek-then-rebound", "reuse"]),
+                                                   edge_container=rng.choice(["list", "list", "list", "tuple", "generator", "iterator", "zip", "dict-keys"])))
             if r is None:
                 ok = False; break
             cl, ties = r
